@@ -1,5 +1,15 @@
 ------------------------------- MODULE MCFlood -------------------------------
 EXTENDS Flood, Json
+
+RECURSIVE Sum(_, _, _)
+Sum(h, i, j) == IF i > j THEN 0 ELSE h[i].c + Sum(h, i + 1, j)
+\* "their total charge never exceeds the wall-clock time between the first and last write by
+\*  more than 10 s plus two lines' charges" (here: the first and the last line of the run)
+WindowBound ==
+  \A i, j \in 1..Len(hist) : i <= j =>
+     Sum(hist, i, j) <= (hist[j].w - hist[i].w) + Threshold + hist[i].c + hist[j].c
+
+
 Emit == IF lastOp'.op = "send" THEN PrintT("EDGE " \o ToJson(lastOp')) ELSE TRUE
 PenaltyView == <<b, idle>>
 =============================================================================
